@@ -34,7 +34,9 @@ def main():
     chk = common.Check(PROP, __doc__)
     base = F.default_shards(t, (PROP,), kn, tools=("git",))
     sh = list(base)
-    only = ("act-", "pair-") if t == "thorough" else ("act-git-codeA", "act-git-md", "act-git-codeS", "act-git-raw", "pair-")
+    only = ("act-", "pair-", "scn-") if t == "thorough" else (
+        "act-git-codeA", "act-git-md", "act-git-codeS", "act-git-raw", "pair-", "scn-long", "scn-lines",
+        "scn-unicode", "scn-runs-codeA")
     sh += F.with_tool(base, "builtin", only=only)
     sh += F.with_tool(base, "diff3", only=only)
     r = runner.explore("harness.fam_nbmerge", sh, nproc=common.nproc(),
